@@ -842,13 +842,6 @@ def block_container_layout(context, box, bottom_space, skip_stack,
             position_y = max(max_float_position_y, position_y)
         new_box.height = position_y - new_box.content_box_y()
 
-    if new_box.style['position'] == 'relative':
-        # New containing block, resolve the layout of the absolute descendants
-        for absolute_box in absolute_boxes:
-            absolute_layout(
-                context, absolute_box, new_box, fixed_boxes, bottom_space,
-                skip_stack=None)
-
     for child in new_box.children:
         relative_positioning(child, (new_box.width, new_box.height))
 
@@ -872,6 +865,14 @@ def block_container_layout(context, box, bottom_space, skip_stack,
                 new_box.height += (
                     box.padding_bottom + box.border_bottom_width +
                     box.margin_bottom)
+
+    if new_box.style['position'] == 'relative':
+        # New containing block, resolve the layout of the absolute descendants
+        # now that the used height is known
+        for absolute_box in absolute_boxes:
+            absolute_layout(
+                context, absolute_box, new_box, fixed_boxes, bottom_space,
+                skip_stack=None)
 
     if next_page['page'] is None:
         next_page['page'] = new_box.page_values()[1]
